@@ -144,11 +144,28 @@ def _plain(x):
     return x
 
 
+def constraint_fn(spec):
+    """["eq0", c] smallest sum == c | ["le_last", c] largest sum <= c | ["ge0", c] smallest sum >= c | list of those"""
+    specs = spec if spec and isinstance(spec[0], list) else [spec]
+
+    def fn(sums):
+        out = []
+        for kind, c in specs:
+            if kind == "eq0": out.append(sums[0] == c)
+            elif kind == "le_last": out.append(sums[-1] <= c)
+            elif kind == "ge0": out.append(sums[0] >= c)
+            else: raise ValueError(kind)
+        return out
+    return fn
+
+
 def build_kwargs(kw):
     kwargs = {}
     for key, v in (kw or {}).items():
         if key == "objective":
             kwargs[key] = objective(v)
+        elif key == "additional_constraints":
+            kwargs[key] = constraint_fn(v)
         else:
             kwargs[key] = v
     return kwargs
